@@ -60,13 +60,60 @@ theorem leMsg_total (a b : Err) : (leMsg a b || leMsg b a) = true := by
   simp only [leMsg, Bool.or_eq_true, decide_eq_true_eq]
   exact String.le_total _ _
 
-theorem sortByMsg_perm (σ : List Err) : (sortByMsg σ).Perm σ := List.mergeSort_perm σ leMsg
+theorem insertByMsg_perm (e : Err) (l : List Err) : (insertByMsg e l).Perm (e :: l) := by
+  induction l with
+  | nil => exact List.Perm.refl _
+  | cons a l ih =>
+    unfold insertByMsg
+    split
+    · exact List.Perm.refl _
+    · exact (ih.cons a).trans (List.Perm.swap _ _ _)
+
+theorem sortByMsg_perm (σ : List Err) : (sortByMsg σ).Perm σ := by
+  induction σ with
+  | nil => exact List.Perm.refl _
+  | cons a l ih => exact (insertByMsg_perm a _).trans (ih.cons a)
+
+theorem insertByMsg_pairwise (e : Err) (l : List Err)
+    (h : l.Pairwise (fun a b => leMsg a b = true)) :
+    (insertByMsg e l).Pairwise (fun a b => leMsg a b = true) := by
+  induction l with
+  | nil => simp [insertByMsg]
+  | cons a l ih =>
+    have ha := (List.pairwise_cons.mp h).1
+    have hl := (List.pairwise_cons.mp h).2
+    unfold insertByMsg
+    split
+    · rename_i hea
+      refine List.pairwise_cons.mpr ⟨?_, h⟩
+      intro x hx
+      rcases List.mem_cons.mp hx with rfl | hxl
+      · exact hea
+      · exact leMsg_trans _ _ _ hea (ha x hxl)
+    · rename_i hea
+      have hae : leMsg a e = true := by
+        have := leMsg_total e a
+        simp only [Bool.or_eq_true] at this
+        rcases this with h1 | h1
+        · exact absurd h1 hea
+        · exact h1
+      refine List.pairwise_cons.mpr ⟨?_, ih hl⟩
+      intro x hx
+      have hx' : x ∈ e :: l := (insertByMsg_perm e l).mem_iff.mp hx
+      rcases List.mem_cons.mp hx' with rfl | hxl
+      · exact hae
+      · exact ha x hxl
+
+theorem sortByMsg_pairwise (σ : List Err) :
+    (sortByMsg σ).Pairwise (fun a b => leMsg a b = true) := by
+  induction σ with
+  | nil => exact List.Pairwise.nil
+  | cons a l ih => exact insertByMsg_pairwise a _ ih
 
 theorem sortByMsg_sorted (σ : List Err) :
     ((sortByMsg σ).map (·.msg)).Pairwise (· ≤ ·) := by
   rw [List.pairwise_map]
-  have h := List.pairwise_mergeSort leMsg_trans leMsg_total σ
-  exact h.imp (fun {a b} hab => by simpa [leMsg] using hab)
+  exact (sortByMsg_pairwise σ).imp (fun {a b} hab => by simpa [leMsg] using hab)
 
 /-- Core lemma: the sorted message list is a function of the multiset. -/
 theorem sorted_msgs_perm_invariant {σ σ' : List Err} (h : σ.Perm σ') :
@@ -92,8 +139,7 @@ theorem selectLeast_spec (σ : List Err) (e : Err) (h : selectLeast σ = some e)
     e ∈ σ ∧ ∀ x ∈ σ, e.msg ≤ x.msg := by
   unfold selectLeast at h
   have hp := sortByMsg_perm σ
-  have hs := List.pairwise_mergeSort leMsg_trans leMsg_total σ
-  change List.Pairwise _ (sortByMsg σ) at hs
+  have hs := sortByMsg_pairwise σ
   cases hl : sortByMsg σ with
   | nil => rw [hl] at h; cases h
   | cons a l =>
@@ -153,14 +199,20 @@ theorem groupErrors_of_no_hard (items : List Outcome) (h : items.all (fun o => !
   | nil => rfl
   | cons o r ih =>
     cases o with
-    | ok => simp [groupErrors, softErrors, isHard] at h ⊢; exact ih h
-    | soft e => simp [groupErrors, softErrors, isHard] at h ⊢; exact ih h
-    | hard e => simp [isHard] at h
+    | ok =>
+      rw [List.all_cons, Bool.and_eq_true] at h
+      simp only [groupErrors, softErrors]; exact ih h.2
+    | soft e =>
+      rw [List.all_cons, Bool.and_eq_true] at h
+      simp only [groupErrors, softErrors]; rw [ih h.2]
+    | hard e =>
+      rw [List.all_cons, Bool.and_eq_true] at h
+      exact absurd h.1 (by simp [isHard])
 
 theorem softErrors_perm {a b : List Outcome} (h : a.Perm b) : (softErrors a).Perm (softErrors b) := by
   induction h with
   | nil => exact List.Perm.refl _
-  | cons x _ ih => cases x <;> simp [softErrors, ih]
+  | cons x _ ih => cases x <;> simp only [softErrors] <;> first | exact ih | exact ih.cons _
   | swap x y l =>
     cases x <;> cases y <;> simp [softErrors] <;> exact List.Perm.swap _ _ _
   | trans _ _ ih1 ih2 => exact ih1.trans ih2
@@ -234,7 +286,7 @@ theorem writer_select_deterministic (results : List (Option Err)) (ran : List Bo
       simp only [List.all_cons, Bool.and_eq_true, id] at hall
       simp only [List.length_cons, Nat.add_right_cancel_iff] at hlen
       have := ih bs hall.2 hlen
-      cases r <;> simp [List.zip_cons_cons, List.filterMap_cons, hall.1, this]
+      cases r <;> simp [List.zip_cons_cons, hall.1, this]
 
 theorem writer_select_first_failing (pre : List (Option Err)) (e : Err) (post : List (Option Err))
     (hpre : ∀ r ∈ pre, r = none) :
@@ -271,8 +323,8 @@ theorem select_deterministic_of_single_error (e : Err) (σ : List Err) (h : σ.P
   have hs : σ = [e] := List.perm_singleton.mp h
   subst hs
   refine ⟨rfl, rfl, ?_, ?_, ?_, rfl⟩
-  · simp [selectLeast, sortByMsg]
-  · simp [selectDup, sortByMsg]
+  · simp [selectLeast, sortByMsg, insertByMsg]
+  · simp [selectDup, sortByMsg, insertByMsg]
   · intro ran hr
     match ran, hr with
     | [true], _ => rfl
